@@ -210,8 +210,8 @@ class FuncKinds:
                         doms.append("SEG:" + (tname or "?"))
                     else:
                         doms.append(None)
-                elif isinstance(p, ast.Name) and self.elem.get(p.id):
-                    # fancy indexing by an index array
+                elif isinstance(p, ast.Name) and (self.elem.get(p.id) or "WS" in self.env.get(p.id, ())):
+                    # fancy indexing by an index array (the working set included)
                     doms.append(self.dom_of_axis(p.id, 0) or ("S:" + p.id))
                 else:
                     pass      # scalar index: axis removed
